@@ -1140,7 +1140,11 @@ class RPCInterface:
             in state ``SYNCHRONIZATION`` or has no Master instance to perform the request.
         """
         self._check_from_distribution()
-        self.supvisors.fsm.on_restart()
+        try:
+            self.supvisors.fsm.on_restart()
+        except RuntimeError:
+            self._raise(SupvisorsFaults.BAD_SUPVISORS_STATE.value, 'restart',
+                        'no Master instance to perform the Supvisors restart request')
         return True
 
     def shutdown(self) -> bool:
@@ -1152,7 +1156,11 @@ class RPCInterface:
             in state ``SYNCHRONIZATION`` or has no Master instance to perform the request.
         """
         self._check_from_distribution()
-        self.supvisors.fsm.on_shutdown()
+        try:
+            self.supvisors.fsm.on_shutdown()
+        except ValueError:
+            self._raise(SupvisorsFaults.BAD_SUPVISORS_STATE.value, 'shutdown',
+                        'no Master instance to perform the Supvisors shutdown request')
         return True
 
     def end_sync(self, master: str = '') -> bool:
